@@ -422,7 +422,9 @@ func (t *thread) Step() (bool, error) {
 	// script, maximum script element sizes, and conditionals.
 	if err := t.executeOpcode(opcode); err != nil {
 		if ok := errs.IsErrorCode(err, errs.ErrOK); ok {
-			// If returned early, move onto the next script
+			// If returned early, move onto the next script.
+			// Alt stack doesn't persist.
+			_ = t.astack.DropN(t.astack.Depth())
 			t.shiftScript()
 			return t.scriptIdx >= len(t.scripts), nil
 		}
